@@ -163,8 +163,20 @@ func (g *gen) componentAllOf() string {
 	return "#/components/schemas/" + name
 }
 
+// componentArray adds a named array-of-objects component and returns its $ref.
+func (g *gen) componentArray() string {
+	g.nSchema++
+	name := fmt.Sprintf("List%d", g.nSchema)
+	g.schemas[name] = M{"type": "array", "items": M{"$ref": g.componentObject(1)}}
+	return "#/components/schemas/" + name
+}
+
 func (g *gen) bodySchema() M {
-	switch g.r.IntN(10) {
+	switch g.r.IntN(12) {
+	case 10:
+		return M{"$ref": g.componentArray()}
+	case 11:
+		return M{"type": "object", "required": []string{"rows"}, "properties": M{"rows": M{"$ref": g.componentArray()}, "total": M{"type": "integer"}}}
 	case 8:
 		// a top-level primitive body
 		return cp([]M{{"type": "integer", "format": "int64"}, {"type": "number"}, {"type": "string"}, {"type": "boolean"}, {"type": "integer"}}[g.r.IntN(5)])
@@ -189,7 +201,8 @@ var segWords = []string{"shops", "pets", "users", "items", "orders", "v", "a-b",
 var varNames = []string{"id", "name", "shop", "pet_id", "when", "n"}
 var methods = []string{"get", "post", "put", "patch", "delete", "get", "post", "head", "options"}
 var queryNames = []string{"page", "limit", "q", "since", "flag", "ratio", "ids", "tags", "sort-by", "filter[x]"}
-var headerNames = []string{"X-Request-Id", "X-Trace", "X-Count", "X-When", "X-Flag", "Accept-Language", "X-Ratio"}
+// header names are deliberately not all in canonical MIME form
+var headerNames = []string{"X-Request-ID", "X-Trace", "x-count", "X-When", "X-Flag", "Accept-Language", "X-RateLimit-Ratio", "ETag-Ish"}
 
 // Generate returns the JSON text of spec number i for the given seed plus a name.
 func Generate(seed uint64, i int) (name string, text string, config string) {
